@@ -21,11 +21,11 @@ ALPH = {
     "fine": alphabet(prices=(299.99999, 300.0, 300.000005, 300.00001), vols=(1, 2), ttls=(None,), mttls=(None,), dead=(), cancels=2),
     "low": alphabet(prices=(0.4, 1, 2), vols=(1, 2), ttls=(None,), mttls=(None,), dead=(), cancels=2),
 }
-SEEDS_Q = ["two_sided_no_trade", "deep", "ladder_buy", "ladder_sell", "partial", "crossed_off", "crossed_tie", "mo_one", "mo_both",
-           "mo_both_eq", "expiring", "same_expiry", "multi_fill", "chunk4", "halftick"]
+SEEDS_Q = ["two_sided_no_trade", "deep", "ladder_buy", "ladder_sell", "partial", "crossed_off", "crossed_tie", "crossed_flip", "crossed_flip_mirror", "mo_one", "mo_both",
+           "mo_both_eq", "expiring", "same_expiry", "mixed_ttl", "multi_fill", "chunk4", "halftick"]
 
 
-KEY_SEEDS = ["two_sided_no_trade", "ladder_buy", "ladder_sell", "multi_fill", "mo_both", "expiring", "same_expiry", "crossed_tie"]
+KEY_SEEDS = ["two_sided_no_trade", "ladder_buy", "ladder_sell", "multi_fill", "mo_both", "expiring", "same_expiry", "mixed_ttl", "crossed_tie"]
 
 
 def plan(tier, d0=None, dseed=None):
@@ -68,7 +68,7 @@ def plan(tier, d0=None, dseed=None):
 
 
 def run_generic(pid, tier, seed, mon_factory, required_witness, rule, assumptions=(), d0=None, dseed=None,
-                extra_alph=None, extra_plan=(), heap=True, heap_ns=None):
+                extra_alph=None, extra_plan=(), heap=True, heap_ns=None, heap_variants=("A", "B", "C")):
     res = common.Result(pid, tier, seed)
     alph = dict(ALPH)
     if extra_alph:
@@ -85,7 +85,7 @@ def run_generic(pid, tier, seed, mon_factory, required_witness, rule, assumption
                          seed_books=sorted(set(x[0] for x in pl)))
     if heap:
         from .. import heap_stress
-        heap_stress.run(res, mon_factory, tier, seed, ns=heap_ns)
+        heap_stress.run(res, mon_factory, tier, seed, ns=heap_ns, variants=heap_variants)
     res.assumptions = list(assumptions) + [
         "operations are drawn from the stated finite alphabets; histories longer than the stated depth are not explored",
         "the market is driven through the same private interface the runner uses (_add_order, _cancel_order, _execution, _update_time, _is_running)",
